@@ -2,6 +2,7 @@
 package main
 
 import (
+	"sync"
 	"time"
 
 	"github.com/emitter-io/emitter/internal/message"
@@ -100,13 +101,21 @@ func main() {
 	r := cfg.Rng
 	sh := vlib.NewShards(cfg.Out, "C19", "From Emitter Require Import Lib.Base Model.MsgCodec Model.PeerQueue Check.C19.", "case", "check", 200)
 
-	// 1. messages
-	for i := 0; i < 500*cfg.Mult; i++ {
-		m := randMsg()
-		enc := m.Encode()
+	// 1. messages: all are encoded first and decoded afterwards (an encoded message must stay
+	// intact while later ones are encoded - encoders come from a pool)
+	nMsg := 500 * cfg.Mult
+	msgs := make([]message.Message, nMsg)
+	encs := make([][]byte, nMsg)
+	for i := range msgs {
+		msgs[i] = randMsg()
+		encs[i] = msgs[i].Encode()
+	}
+	for i := 0; i < nMsg; i++ {
+		m := msgs[i]
+		enc := encs[i]
 		inner, err := snappy.Decode(nil, enc)
 		if err != nil {
-			panic(err)
+			inner = nil
 		}
 		var out message.Message
 		var derr error
@@ -115,8 +124,11 @@ func main() {
 			map[string]interface{}{"op": "message", "id": len(m.ID), "chan": len(m.Channel), "payload": len(m.Payload), "ttl": m.TTL},
 			"message", len(m.ID)+len(m.Channel)+len(m.Payload) > 0)
 	}
-	// 2. frames
-	for i := 0; i < 200*cfg.Mult; i++ {
+	// 2. frames (two phases as well)
+	nFr := 200 * cfg.Mult
+	frames := make([]message.Frame, nFr)
+	fencs := make([][]byte, nFr)
+	for i := range frames {
 		n := r.Intn(6)
 		if r.Intn(10) == 0 {
 			n = vlib.Pick(r, 127, 128, 130)
@@ -129,7 +141,17 @@ func main() {
 				f = append(f, randMsg())
 			}
 		}
-		enc := f.Encode()
+		frames[i] = f
+		fencs[i] = f.Encode()
+		if r.Intn(3) == 0 { // a message encoded in between
+			m := randMsg()
+			m.Encode()
+		}
+	}
+	for i := 0; i < nFr; i++ {
+		f := frames[i]
+		n := len(f)
+		enc := fencs[i]
 		inner, _ := snappy.Decode(nil, enc)
 		var out message.Frame
 		var derr error
@@ -293,6 +315,58 @@ func main() {
 		}
 		sh.Add(vlib.App("CQueue", vlib.List(ops), vlib.List(chunks)),
 			map[string]interface{}{"op": "peer-queue", "steps": len(ops), "chunks_sent": len(chunks)}, "queue", tag > 1)
+	}
+	// 6. concurrent senders against the flusher: per-publisher order, nothing lost or duplicated
+	for i := 0; i < 3*cfg.Mult; i++ {
+		g := &fakeGossip{}
+		p := cluster.VerifNewPeer(g, mesh.PeerName(43))
+		p.VerifSetActivity(time.Now().Unix() + 1000)
+		const pubs, per = 6, 1500
+		var wg sync.WaitGroup
+		stop := make(chan struct{})
+		done := make(chan struct{})
+		go func() {
+			defer close(done)
+			for {
+				select {
+				case <-stop:
+					return
+				default:
+					p.VerifFlush()
+				}
+			}
+		}()
+		for w := 0; w < pubs; w++ {
+			wg.Add(1)
+			go func(w int) {
+				defer wg.Done()
+				for k := 0; k < per; k++ {
+					m := message.Message{ID: []byte{byte(w)}, Channel: []byte{byte(k >> 8), byte(k)}, Payload: make([]byte, 40)}
+					p.Send(&m)
+				}
+			}(w)
+		}
+		wg.Wait()
+		close(stop)
+		<-done
+		p.VerifFlush()
+		var seq []string
+		for _, b := range g.sent {
+			f, err := message.DecodeFrame(b)
+			if err != nil {
+				seq = append(seq, vlib.Pair("999", "0"))
+				continue
+			}
+			for _, m := range f {
+				if len(m.ID) != 1 || len(m.Channel) != 2 {
+					seq = append(seq, vlib.Pair("999", "1"))
+					continue
+				}
+				seq = append(seq, vlib.Pair(vlib.N(uint64(m.ID[0])), vlib.N(uint64(m.Channel[0])<<8|uint64(m.Channel[1]))))
+			}
+		}
+		sh.Add(vlib.App("CQStress", vlib.N(pubs), vlib.N(per), vlib.List(seq)),
+			map[string]interface{}{"op": "peer-queue stress", "publishers": pubs, "per_publisher": per, "frames": len(g.sent)}, "queue-stress", true)
 	}
 	sh.Finish("messages/frames with empty, small, 127/128/16383/16384-byte fields and ttl 0..2^32-1; ids over random ssids, sequence counter near wrap, SetTime over and beyond the 2018+2^32 s range; Split with bounds at and around every cut; Send/Flush scripts with inactive periods; non-trivial = non-empty message / frame, >1 message for split and queue")
 }
